@@ -9,6 +9,17 @@ use serde_json::{json, Value};
 
 const I: ChalkIr = ChalkIr;
 
+thread_local! {
+    /// abstract variable id -> index of the real inference variable (installed by the `infer` mode)
+    pub static VARMAP: std::cell::RefCell<Option<std::collections::HashMap<usize, u32>>> = std::cell::RefCell::new(None);
+}
+fn var_index(abs: usize) -> u32 {
+    VARMAP.with(|m| match m.borrow().as_ref() {
+        Some(map) => *map.get(&abs).unwrap_or_else(|| panic!("undeclared variable {}", abs)),
+        None => abs as u32,
+    })
+}
+
 fn k(v: &Value) -> &str {
     v["k"].as_str().unwrap_or("")
 }
@@ -74,7 +85,7 @@ pub fn lt_of(v: &Value) -> Lifetime<ChalkIr> {
         "lstatic" => LifetimeData::Static,
         "lerased" => LifetimeData::Erased,
         "lerror" => LifetimeData::Error,
-        "linfer" => LifetimeData::InferenceVar(InferenceVar::from(n(v) as u32)),
+        "linfer" => LifetimeData::InferenceVar(InferenceVar::from(var_index(n(v)))),
         "lph" => LifetimeData::Placeholder(ph(v)),
         "lbound" => LifetimeData::BoundVar(bound(v)),
         other => panic!("not a lifetime kind: {}", other),
@@ -86,7 +97,7 @@ pub fn const_of(v: &Value) -> Const<ChalkIr> {
     let ty = ty_of(&a(v)[0]);
     let value = match k(v) {
         "cval" => ConstValue::Concrete(ConcreteConst { interned: n(v) as u32 }),
-        "cinfer" => ConstValue::InferenceVar(InferenceVar::from(n(v) as u32)),
+        "cinfer" => ConstValue::InferenceVar(InferenceVar::from(var_index(n(v)))),
         "cph" => ConstValue::Placeholder(ph(v)),
         "cbound" => ConstValue::BoundVar(bound(v)),
         other => panic!("not a const kind: {}", other),
@@ -190,7 +201,7 @@ pub fn ty_of(v: &Value) -> Ty<ChalkIr> {
         })),
         "bound" => TyKind::BoundVar(bound(v)),
         "infer" => TyKind::InferenceVar(
-            InferenceVar::from(n(v) as u32),
+            InferenceVar::from(var_index(n(v))),
             match m(v) {
                 1 => TyVariableKind::Integer,
                 2 => TyVariableKind::Float,
